@@ -78,6 +78,7 @@ type Run struct {
 	Pbdrv   string
 	Rng     *rand.Rand
 	Thorough bool
+	CrashLog string // if set, every case is written here before it runs (slow; used to find the case that kills the process)
 
 	mu            sync.Mutex
 	Evaluations   int
@@ -198,6 +199,10 @@ func SafeDo(e Exec, line string) (out string) {
 // RunCase executes one case on the implementation, streams it to the model, applies the monitor.
 func (r *Run) RunCase(c Case) []string {
 	cc := c
+	if r.CrashLog != "" {
+		b, _ := json.Marshal(map[string]any{"lines": cc.Lines, "kind": cc.Kind})
+		_ = os.WriteFile(r.CrashLog, b, 0o644)
+	}
 	e := r.H.NewExec(r)
 	outs := make([]string, len(cc.Lines))
 	if !cc.NoModel {
@@ -298,10 +303,12 @@ func Main(h *Harness) {
 	seed := flag.Int64("seed", 1, "PRNG seed")
 	out := flag.String("out", "", "output directory (result.json)")
 	pbdrv := flag.String("pbdrv", "", "path to the compiled Lean model driver")
+ 	crashlog := flag.String("crashlog", "", "write every case to this file before running it (to identify a case that kills the process)")
 	replay := flag.String("replay", "", "replay file (JSON with a 'lines' array): run on implementation and model, print both")
 	flag.Parse()
 	r := &Run{H: h, Tier: *tier, Seed: *seed, OutDir: *out, Pbdrv: *pbdrv, Thorough: *tier == "thorough",
 		Rng: rand.New(rand.NewSource(*seed)), distinct: map[uint64]struct{}{}, Dist: map[string]int{}, start: time.Now()}
+	r.CrashLog = *crashlog
 	if *replay != "" {
 		os.Exit(r.replay(*replay))
 	}
